@@ -352,7 +352,7 @@ def san_summary(err):
                 or c in ("malloc", "free", "memcpy", "memset"):
             continue
         frames.append(c)
-        if len(frames) >= 3:
+        if len(frames) >= 5:
             break
     return kind, frames
 
@@ -416,7 +416,7 @@ class Verdict:
         for f in self.findings:
             if f.get("status") == "known":
                 pat = f.get("key")
-                if pat == key or (pat.endswith("*") and key.startswith(pat[:-1])):
+                if pat == key or re.fullmatch(pat, key):
                     return f
         return None
 
